@@ -240,3 +240,40 @@ Proof.
   - inversion H. subst. repeat split; try assumption. now exists p, c.
   - destruct H as (_ & _ & _ & p' & c' & H1 & H2 & Hr). inversion H1. inversion H2. now subst.
 Qed.
+
+(* ---------------------------------------------------------------- frames that are not objects *)
+(* With the object-only reading of the message (work/c04-array-fix.diff) every frame that is not a
+   JSON object is a decode error, for receive_reply and for the proxy methods on top of it; on
+   objects nothing changes. *)
+Theorem non_object_decode_error : forall E P v,
+  is_object v = false ->
+  receive_reply_model true E P v = DecodeError /\
+  forall unit_out, proxy_model true unit_out E P v = PDecode.
+Proof.
+  intros E P v H. unfold receive_reply_model, proxy_model. rewrite H. split; reflexivity.
+Qed.
+
+Theorem object_frames_unchanged : forall b E P ms,
+  receive_reply_model b E P (JObj ms) = classify E P (JObj ms) /\
+  forall unit_out, proxy_model b unit_out E P (JObj ms) = proxy_out unit_out E P (JObj ms).
+Proof. intros. split; reflexivity. Qed.
+
+(* Hence, with the repair: a method error or a service error is reported ONLY IF the frame is an
+   object that has an `error` member (the missing direction of the property for arbitrary frames),
+   for every error type of the derive's form. *)
+Theorem error_only_if_error_member : forall E P v,
+  derived_error_shape E ->
+  (exists e, receive_reply_model true E P v = MethodError e \/
+             receive_reply_model true E P v = VarlinkError e) ->
+  exists ms, v = JObj ms /\ has_member "error" ms.
+Proof.
+  intros E P v (vs & HE & Hok) [e He]. subst E. unfold receive_reply_model in He.
+  destruct v as [| | | | | l | ms]; cbn [is_object] in He;
+    try (destruct He as [He | He]; discriminate).
+  exists ms. split; [reflexivity |].
+  rewrite classify_unfold in He.
+  destruct (in_dec String.string_dec "error" (keys ms)) as [Hin | Hno]; [exact Hin | exfalso].
+  unfold vs_error_shape, err_shape in He. rewrite !decoder_adj in He.
+  rewrite (adj_no_tag _ _ _ _ _ Hno) in He. rewrite (adj_no_tag _ _ _ _ _ Hno) in He.
+  destruct (decoder (reply_shape P) Ref (JObj ms)); destruct He as [He | He]; discriminate.
+Qed.
